@@ -27,7 +27,7 @@ Definition is_mutator (x : op) : bool :=
   | OInsNC _ _ _ | OInsPC _ _ _ | OInsC _ _ | OInsS _ _ | OInsSS _ _ _ _ | OInsFs _ | OInsFss _ _ _
   | OInsIt _ _ | OInsItN _ _ _ | OErase _ _ | OEraseIt _ | OEraseItr _ _ | OPush _ | OPop
   | OAppNC _ _ | OPeCh _ | OAppS _ | OAppFs | OAppSS _ _ _ | OAppFss _ _ | OAppPC _ _ | OAppC _
-  | OAppIt _ _ | OSprintf _ | ORepFs _ _ | ORepS _ _ _ | ORepFss _ _ _ _ | ORepSS _ _ _ _ _
+  | OAppIt _ _ | OSprintf _ | OSprintfFail _ _ | ORepFs _ _ | ORepS _ _ _ | ORepFss _ _ _ _ | ORepSS _ _ _ _ _
   | ORepC _ _ _ | ORepPC _ _ _ _ | ORepNC _ _ _ _ | OSwap | OClear => true
   | _ => false
   end.
@@ -296,6 +296,12 @@ Proof.
       symmetry. apply (cut_abs _ Hs).
   - (* sprintf *)
     destruct (sprintf_refines L HL s x Hs) as (s' & E & A). fin_upd E Ho. assumption.
+  - (* sprintf with a failing conversion *)
+    cbn [step]. unfold upd, sprintf_fail.
+    pose proof (glibc_partial_len L HL wide x) as Hw.
+    rewrite mcpy_blit by len_side. cbn [bind]. rewrite (fin_blit L HL) by len_side. cbn [bind].
+    eexists _, _, _; split; [reflexivity|]. split; [|symmetry; apply (cut_abs _ Ho)].
+    unfold abs, cut. cbn [buf len]. rewrite !take_0. reflexivity.
   - (* rep_fs *)
     destruct (replace_impl_refines L HL s p c (buf o) 0 (len o)) as (s' & E & A);
       [assumption|lia|assumption|unfold M64; lia|unfold M64 in *; lia|lia|].
